@@ -165,7 +165,7 @@ def check_canopy(res, name, cc0, ccx, cgc, cdc, times, keys, tag=""):
 _W = dict(kind="synth", first="2000-04-20", days=420, tmean=24.0, amp=3.0, phase=0, dtr=8.0, et0=4.0, rain_p=0.3, rain_mm=8.0, noise=1, events=[])
 
 
-def fco2_both_paths(name, conc):
+def fco2_both_paths(name, conc, ref=None):
     """(fCO2 from model initialisation, fCO2 from the season-start reset) for a constant concentration."""
     from aquacrop.timestep.reset_initial_conditions import reset_initial_conditions
 
@@ -173,7 +173,8 @@ def fco2_both_paths(name, conc):
     w = dict(_W)
     w["tmean"] = tb + 14.0
     cfg = dict(start="2000/05/01", end="2001/04/25", off_season=False, crop=dict(name=name, planting="05/01", harvest=None, overrides={}),
-               soil=dict(type="Loam", args={}), iwc=None, irr=None, fm=None, ffm=None, gw=None, co2={"constant": conc}, weather=w)
+               soil=dict(type="Loam", args={}), iwc=None, irr=None, fm=None, ffm=None, gw=None,
+               co2=({"constant": conc} if ref is None else {"constant": conc, "ref": ref}), weather=w)
     m = make_model(cfg)
     with init_guard():
         m._initialize()
@@ -185,12 +186,13 @@ def fco2_both_paths(name, conc):
     return a, b
 
 
-def check_fco2(res, name, concs, keys):
+def check_fco2(res, name, concs, keys, ref=None):
     n = 0
     prev = None
+    refc = 369.41 if ref is None else float(ref)
     for conc in concs:
         try:
-            a, b = fco2_both_paths(name, conc)
+            a, b = fco2_both_paths(name, conc, ref)
         except AssertionError:
             res.labels.add("fco2_carrier_run_rejected")
             return n  # documented rejection of the tiny carrier run (thermal crop): CO2 path not reachable here
@@ -198,8 +200,8 @@ def check_fco2(res, name, concs, keys):
         if abs(a - b) > 1e-12:
             res.fail("fco2_paths_disagree", "%s: CO2 factor at %.2f ppm is %.12g at initialisation but %.12g at a season start" % (name, conc, a, b))
             return n
-        if abs(conc - 369.41) < 1e-9 and abs(a - 1.0) > 1e-12:
-            res.fail("fco2_reference", "%s: CO2 factor at the reference concentration is %.12g" % (name, a))
+        if abs(conc - refc) < 1e-9 and abs(a - 1.0) > 1e-12:
+            res.fail("fco2_reference", "%s: CO2 factor at the configured reference concentration %.2f ppm is %.12g" % (name, refc, a))
             return n
         if prev is not None and a < prev[1] - 1e-12:
             res.fail("fco2_monotone", "%s: CO2 factor falls %.9g -> %.9g when the concentration rises %.2f -> %.2f ppm" % (name, prev[1], a, prev[0], conc))
@@ -225,6 +227,8 @@ def eval_lattice(name):
     times = np.linspace(0.0, 3.0 * mat, 121)
     n += check_canopy(res, name, cc0, ccx, cgc, cdc, times, keys)
     n += check_fco2(res, name, CO2S, keys)
+    # a user-configured reference concentration: the factor must be 1 THERE and non-decreasing around it
+    n += check_fco2(res, name, [330.0, 380.0, 400.0, 420.0, 500.0, 700.0], keys, ref=400.0)
     res.evals = n
     res.keys = keys
     res.nontrivial = bool(keys)
